@@ -302,8 +302,8 @@ impl Store {
 //@@ item file=src/store/mod.rs fn=iter_frames impl=Store ret=r
 //@@ rewrite: Box<dyn Iterator<Item = Frame> + '_> ==> ! Box<SeqIter<Frame>>
 //@@ after_all: fn iter_frames(&self, ==> Tracked(st): Tracked<&St>,
-//@@ closure_spec: .filter_map( ==> -> (o: Option<Frame>) requires $1 is Ok && kv_key($1).len() == 32 ensures o == live_frame_ctx(st, $1)
-//@@ closure_spec: .map( ==> -> (o: Frame) requires $1 is Ok ensures o == frame_dec(kv_val($1))
+//@@ closure_spec: ).filter_map( ==> -> (o: Option<Frame>) requires $1 is Ok && kv_key($1).len() == 32 ensures o == live_frame_ctx(st, $1)
+//@@ closure_spec: ).map( ==> -> (o: Frame) requires $1 is Ok ensures o == frame_dec(kv_val($1))
 //@@ spec
     requires store_wf(self),
         forall|k: Seq<u8>| st.parts.idx_ctx.contains_key(k) ==> k.len() == 32,
@@ -381,6 +381,74 @@ impl Store {
     proof { axiom_ctx_topic_nul_free(); axiom_fmt_req_scru(); }
 //@@ end
 }
+
+// ---- read_sync: body of the expiry filter closure; Store::new: the context reload loop ----
+pub uninterp spec fn expired_obs(id: Scru128Id, ttl: Duration) -> bool;   // what is_expired answers (contract: unit `expiry`)
+#[verifier::external_body]
+pub fn is_expired(id: &Scru128Id, ttl: &Duration) -> (r: bool)
+    ensures r == expired_obs(*id, *ttl)
+{ unimplemented!() }
+pub open spec fn frame_expired(f: &Frame) -> bool { f.ttl matches Some(TTL::Time(d)) && expired_obs(f.id, d) }
+
+impl Store {
+//@@ slice file=src/store/mod.rs fn=read_sync impl=Store name=read_sync_filter
+//@@ from: .filter(move |frame| {
+//@@ through_close
+//@@ inner
+//@@ header
+fn read_sync_filter(&self, Tracked(st): Tracked<&mut St>, frame: &Frame) -> (keep: bool)
+    ensures
+        // a frame is dropped from a read iff it carries time:N and is_expired says so (C08, C09) ...
+        keep == !frame_expired(frame), //# store.read_sync.filter_drops_exactly_expired
+        // ... and a Remove task is queued for exactly those, for that frame's id; nothing else happens (C08)
+        final(st).parts == old(st).parts && final(st).contexts == old(st).contexts, //# store.read_sync.filter_no_store_effect
+        final(st).log == (if frame_expired(frame) { old(st).log.push(Ev::Gc(GCTask::Remove(frame.id))) } else { old(st).log }), //# store.read_sync.remove_only_expired
+{
+//@@ epilogue
+}
+//@@ end
+}
+
+// the context registry after a reload over `frames`: ids of the xs.context frames, added to what was there
+pub open spec fn reload_ctx(base: Set<u128>, frames: Seq<Frame>) -> Set<u128> decreases frames.len() {
+    if frames.len() == 0 { base } else {
+        let s = reload_ctx(base, frames.drop_last());
+        if is_ctx_topic(&frames.last()) { s.insert(id_u128(frames.last().id)) } else { s }
+    }
+}
+// Store::read_sync as the reload loop sees it: it yields some sequence of frames (which ones is C01's contract)
+pub uninterp spec fn reload_frames() -> Seq<Frame>;
+#[verifier::external_body]
+pub fn read_sync_stub(store: &Store, last_id: Option<&Scru128Id>, limit: Option<usize>, context_id: Option<Scru128Id>) -> (v: Vec<Frame>)
+    ensures v@ == reload_frames(),
+{ unimplemented!() }
+//@@ slice file=src/store/mod.rs fn=new impl=Store name=new_reload_loop
+//@@ from: for frame in store.read_sync(
+//@@ through_block
+//@@ rewrite: store.read_sync( ==> ! read_sync_stub(&store,
+//@@ after?: for frame in
+    it:
+//@@ before?: { if frame.topic ==
+    invariant st.parts == old(st).parts, it.index@ <= reload_frames().len(),
+        st.contexts == reload_ctx(old(st).contexts, reload_frames().take(it.index@ as int)), //# store.new.reload_registers_ctx_frames
+//@@ before_stmt?: if frame.topic ==
+    proof {
+        assert(reload_frames().take(it.index@ as int + 1).drop_last() =~= reload_frames().take(it.index@ as int));
+        assert(reload_frames().take(it.index@ as int + 1).last() == frame);
+    }
+//@@ header
+fn new_reload_loop(store: Store, Tracked(st): Tracked<&mut St>)
+    ensures
+        // after open: exactly the ids of the xs.context frames the zero-context read returned are registered on top
+        // of the zero context (C07); the stored data is not touched
+        final(st).parts == old(st).parts,
+        final(st).contexts == reload_ctx(old(st).contexts, reload_frames()), //# store.new.reload_registers_ctx_frames
+{
+    proof { assert(reload_frames().take(0) =~= Seq::<Frame>::empty()); }
+//@@ epilogue
+    proof { assert(reload_frames().take(reload_frames().len() as int) =~= reload_frames()); }
+}
+//@@ end
 
 // ---- GC worker, CheckHeadTTL arm (body of the match arm in spawn_gc_worker) ----
 pub open spec fn gc_scan(kvs: Seq<Kv>, st: &St, context_id: Scru128Id, topic: String) -> bool {
